@@ -155,15 +155,28 @@ Qed.
 Definition is_byte (b : N) : bool := b <? 256.
 
 (** int.from_bytes(l, "big") *)
-Definition from_be (l : list N) : N := fold_left (fun acc b => acc * 256 + b) l 0.
+Definition from_be (l : list N) : N := fold_left (fun acc b => N.shiftl acc 8 + b) l 0.
+(* [N.shiftl acc 8] is [acc * 256] (lemma [shl8]); the shift keeps vm_compute linear on long inputs *)
 
 (** n.to_bytes(k, "big") for 0 <= n < 256^k  (the value is reduced mod 256^k otherwise; callers
     guard the range, as CPython raises OverflowError / struct.error there) *)
 Fixpoint to_be (k : nat) (n : N) : list N :=
   match k with
   | O => []
-  | S k' => to_be k' (n / 256) ++ [n mod 256]
+  | S k' => to_be k' (N.shiftr n 8) ++ [N.land n 255]
   end.
+(* [N.shiftr n 8] = n / 256 and [N.land n 255] = n mod 256 (lemmas [shr8], [land255]) *)
+
+Lemma shl8 a : N.shiftl a 8 = a * 256.
+Proof. now rewrite N.shiftl_mul_pow2. Qed.
+Lemma shr8 a : N.shiftr a 8 = a / 256.
+Proof. now rewrite N.shiftr_div_pow2. Qed.
+Lemma land255 a : N.land a 255 = a mod 256.
+Proof. change 255 with (N.ones 8). now rewrite N.land_ones. Qed.
+Lemma shr7 a : N.shiftr a 7 = a / 128.
+Proof. now rewrite N.shiftr_div_pow2. Qed.
+Lemma land127 a : N.land a 127 = a mod 128.
+Proof. change 127 with (N.ones 7). now rewrite N.land_ones. Qed.
 
 (** number of bytes of the shortest big-endian representation: (bit_length + 7) // 8 *)
 Definition nbytes (n : N) : nat := N.to_nat ((N.size n + 7) / 8).
@@ -171,13 +184,8 @@ Definition nbytes (n : N) : nat := N.to_nat ((N.size n + 7) / 8).
 (** cryptography.utils.int_to_bytes(n) = n.to_bytes((n.bit_length() + 7) // 8 or 1, "big") *)
 Definition to_be_min (n : N) : list N := to_be (Nat.max 1 (nbytes n)) n.
 
-Lemma fold_be_app l b acc :
-  fold_left (fun acc b => acc * 256 + b) (l ++ [b]) acc
-  = fold_left (fun acc b => acc * 256 + b) l acc * 256 + b.
-Proof. rewrite fold_left_app. reflexivity. Qed.
-
 Lemma from_be_snoc l b : from_be (l ++ [b]) = from_be l * 256 + b.
-Proof. apply fold_be_app. Qed.
+Proof. unfold from_be. rewrite fold_left_app. cbn [fold_left]. now rewrite shl8. Qed.
 
 Lemma from_be_zero_cons l : from_be (0 :: l) = from_be l.
 Proof. reflexivity. Qed.
@@ -191,7 +199,7 @@ Proof. unfold blen. now rewrite length_to_be. Qed.
 Lemma to_be_bytes k n : forallb is_byte (to_be k n) = true.
 Proof.
   revert n; induction k as [|k IH]; intros n; [reflexivity|].
-  cbn [to_be]. rewrite forallb_app, IH. cbn. unfold is_byte.
+  cbn [to_be]. rewrite forallb_app, IH, land255. cbn [forallb andb]. unfold is_byte.
   assert (n mod 256 < 256) by (apply N.mod_lt; lia).
   destruct (n mod 256 <? 256) eqn:E; [reflexivity|lia].
 Qed.
@@ -200,7 +208,7 @@ Lemma from_be_to_be k n : from_be (to_be k n) = n mod 256 ^ N.of_nat k.
 Proof.
   revert n; induction k as [|k IH]; intros n.
   - cbn. now rewrite N.mod_1_r.
-  - cbn [to_be]. rewrite from_be_snoc, IH.
+  - cbn [to_be]. rewrite from_be_snoc, IH, shr8, land255.
     rewrite Nnat.Nat2N.inj_succ, N.pow_succ_r'.
     rewrite N.mod_mul_r by (try apply N.pow_nonzero; lia). lia.
 Qed.
@@ -252,7 +260,7 @@ Proof.
   rewrite forallb_app in H. apply andb_true_iff in H as [Hl Hb]. cbn in Hb. unfold is_byte in Hb.
   destruct (b <? 256) eqn:E; [|discriminate].
   rewrite app_length. cbn [length]. rewrite Nat.add_1_r. cbn [to_be].
-  rewrite from_be_snoc.
+  rewrite from_be_snoc, shr8, land255.
   replace ((from_be l * 256 + b) / 256) with (from_be l).
   2:{ apply N.div_unique with b; lia. }
   replace ((from_be l * 256 + b) mod 256) with b.
@@ -294,7 +302,7 @@ Qed.
 Fixpoint le128_pos (p : positive) (fuel : nat) : list N :=
   match fuel with
   | O => []
-  | S f => (Npos p mod 128) :: match Npos p / 128 with 0 => [] | Npos q => le128_pos q f end
+  | S f => N.land (Npos p) 127 :: match N.shiftr (Npos p) 7 with 0 => [] | Npos q => le128_pos q f end
   end.
 
 Definition to_le128 (n : N) : list N :=
@@ -302,13 +310,16 @@ Definition to_le128 (n : N) : list N :=
 
 (** sum of d_i * 128^i *)
 Fixpoint from_le128 (l : list N) : N :=
-  match l with [] => 0 | d :: r => d + 128 * from_le128 r end.
+  match l with [] => 0 | d :: r => d + N.shiftl (from_le128 r) 7 end.
+
+Lemma from_le128_cons d r : from_le128 (d :: r) = d + 128 * from_le128 r.
+Proof. cbn [from_le128]. rewrite N.shiftl_mul_pow2. change (2 ^ 7) with 128. lia. Qed.
 
 Lemma from_le128_pos p fuel : (N.size (Npos p) <= N.of_nat fuel) -> from_le128 (le128_pos p fuel) = Npos p.
 Proof.
   revert p; induction fuel as [|f IH]; intros p H.
   - cbn in H. lia.
-  - cbn [le128_pos from_le128].
+  - cbn [le128_pos]. rewrite from_le128_cons, shr7, land127.
     pose proof (N.div_mod (Npos p) 128 ltac:(lia)) as D.
     destruct (N.pos p / 128) as [|q] eqn:Q.
     + cbn [from_le128]. lia.
@@ -317,7 +328,8 @@ Proof.
       { rewrite <- Q. apply N.div_lt; lia. }
       assert (N.size (N.pos q) < N.size (N.pos p)) as Hs.
       { rewrite !N.size_log2 by lia.
-        assert (N.pos q * 128 <= N.pos p) as Hm by (clear -D; lia).
+        assert (N.pos q * 128 <= N.pos p) as Hm.
+        { clear -D. revert D. generalize (N.pos p mod 128). intros r D. lia. }
         change 128 with (2 ^ 7) in Hm.
         apply N.log2_le_mono in Hm. rewrite N.log2_mul_pow2 in Hm by lia. lia. }
       lia.
@@ -332,7 +344,7 @@ Qed.
 Lemma le128_pos_digits p fuel : forallb (fun d => d <? 128) (le128_pos p fuel) = true.
 Proof.
   revert p; induction fuel as [|f IH]; intros p; [reflexivity|].
-  cbn [le128_pos forallb].
+  cbn [le128_pos forallb]. rewrite shr7, land127.
   assert (N.pos p mod 128 < 128) by (apply N.mod_lt; lia).
   destruct (N.pos p mod 128 <? 128) eqn:E; [|lia]. cbn [andb].
   destruct (N.pos p / 128); [reflexivity|apply IH].
@@ -340,3 +352,15 @@ Qed.
 
 Lemma to_le128_digits n : forallb (fun d => d <? 128) (to_le128 n) = true.
 Proof. destruct n; [reflexivity|apply le128_pos_digits]. Qed.
+
+(** ---------------------------------------------------------------- exceptions as values --- *)
+
+(** the exception classes the modelled kernels can raise (compared by class name only) *)
+Inductive pyexn := StructError | AssertionError | TypeError | OverflowError | ValueError | EOFError | IndexError.
+
+Inductive res (A : Type) : Type := Ok (a : A) | Err (e : pyexn).
+Arguments Ok {A} a.
+Arguments Err {A} e.
+
+Definition bind {A B} (r : res A) (f : A -> res B) : res B :=
+  match r with Ok a => f a | Err e => Err e end.
